@@ -340,6 +340,13 @@ def run_block(stmts, env: Dict[str, object], on_call, depth=0):
             for c in ast.walk(st):
                 if isinstance(c, ast.Call):
                     on_call(c, env)
+            if isinstance(st, ast.Return):
+                try:
+                    env["__return__"] = peval(st.value, env) if st.value is not None else None
+                except Unknown:
+                    env["__return__"] = UNKNOWN
+            else:
+                env["__raise__"] = True
             return False
         elif isinstance(st, (ast.FunctionDef, ast.AsyncFunctionDef, ast.ClassDef)):
             continue
@@ -348,3 +355,13 @@ def run_block(stmts, env: Dict[str, object], on_call, depth=0):
                 if isinstance(c, ast.Call):
                     on_call(c, env)
     return True
+
+
+def returned_value(fn, env: Dict[str, object]):
+    """value returned by fn's body under one valuation (UNKNOWN when it cannot be evaluated, None when it falls off the end);
+    raises Unknown when a test on the way cannot be evaluated"""
+    env = dict(env)
+    run_block(A.strip_docstring(fn.body), env, lambda c, e: None)
+    if env.get("__raise__"):
+        return Sym("<raises>")
+    return env.get("__return__")
